@@ -34,6 +34,17 @@ def main():
     need = max([n, c, k] + sensors)
     pool = scenarios.CASE_POOL[: max(2, 2 * ((need + 1) // 2))]  # small pool: names differing only in capitalisation always occur
     sc = scenarios.Scenario(n, c, k, sensors, seed=seed, pool=pool)
+    # redundant entries: two readings of one sensor with IDENTICAL model expressions and equal noise (two altimeters), two states with
+    # identical update expressions - a sort that falls back to declaration order on such ties is not deterministic
+    for key, m in sc.sensor_models.items():
+        rn = sorted(m)
+        if len(rn) >= 2:
+            m[rn[1]] = m[rn[0]]
+            sc.sensor_noises[key][rn[1]] = sc.sensor_noises[key][rn[0]]
+            break
+    if n >= 3:
+        st = sorted(sc.state, key=lambda s: s.name)
+        sc.state_model[st[2]] = sc.state_model[st[1]]
     rng = random.Random(order_seed)
 
     def decl(xs):
